@@ -49,6 +49,7 @@ type recWorld struct {
 	win         uint16
 	division    bool          // this run's receiver also acknowledges in the middle of segments
 	lastAdvance time.Duration // when the peer last sent an ACK that moved its cumulative position
+	lastSeg     *Decoded      // the data segment emitted last (what a router's ICMP error would quote)
 }
 
 func (scRecovery) NeutralISS(raw json.RawMessage) json.RawMessage { return neutralWin(raw) }
@@ -118,6 +119,7 @@ func (w *recWorld) observe() {
 		}
 		sr.times = append(sr.times, d.F.At)
 		w.inbox = append(w.inbox, d)
+		w.lastSeg = d
 		// (3) before the first ACK at most 10 segments; Reno: in flight <= 10 + acked + dup ACKs
 		inflight := 0
 		for _, o := range w.order {
@@ -307,6 +309,33 @@ func (w *recWorld) apply(s Step) {
 			w.lastAckNo = -1
 			w.sendAck()
 		}
+	case "bigptb":
+		// a router reports "packet too big" with an MTU that is NOT below the one in use (a duplicate, a
+		// stale or a forged report): there is nothing to adapt to, and nothing that was sent is thereby
+		// acknowledged - the congestion window bounds stay what they are
+		if w.lastSeg == nil {
+			break
+		}
+		p := w.p
+		mtu := uint32([]int{1500, 9000, 65535}[s.A%3])
+		if mtu < w.S.Link.mtu {
+			mtu = w.S.Link.mtu
+		}
+		q := w.lastSeg.F.Data
+		if w.cfg.V6 {
+			if len(q) > 88 {
+				q = q[:88]
+			}
+			w.InjectIP(true, p.PAddr, p.SAddr, codec.ProtoICMPv6, codec.EncodeICMPv6([]byte(p.PAddr), []byte(p.SAddr), 2, 0, mtu, q), 0)
+		} else {
+			if len(q) > 48 {
+				q = q[:48]
+			}
+			w.InjectIP(false, p.PAddr, p.SAddr, codec.ProtoICMP, codec.EncodeICMPv4(3, 4, mtu, q), 0)
+		}
+		w.Probes["packet_too_big_without_a_smaller_mtu"]++
+		w.Settle()
+		w.observe()
 	case "adv":
 		w.inAdvance = true
 		w.Advance(time.Duration(s.D))
@@ -390,7 +419,9 @@ func max64(a, b int64) int64 {
 
 func (w *recWorld) next() Step {
 	r := w.Rng
-	switch r.Pick(4, 6, 10, 2, 1, 4, 2) {
+	switch r.Pick(4, 6, 10, 2, 1, 4, 2, 1) {
+	case 7:
+		return Step{Op: "bigptb", A: r.Intn(3)}
 	case 0:
 		return Step{Op: "write", C: r.Range(1, []int{3, 12, 40, 200}[r.Intn(4)])}
 	case 1:
